@@ -38,8 +38,10 @@ def pack(e):
         a, b = e[1], e[2]
     elif t == 6:
         a = e[1]
+    elif t == 9:
+        a, b = e[1], e[2]
     assert 0 <= a < 1024 and 0 <= b < 1024 and 0 <= c < 1024, e
-    return t + 8 * (a + 1024 * (b + 1024 * c))
+    return t + 16 * (a + 1024 * (b + 1024 * c))
 
 
 class Ctx:
@@ -65,8 +67,20 @@ def do_fire(ctx, comp, name, prio):
         ctx.log.append([7])      # something ran inside fire(): re-entrancy
 
 
+def make_gen(nyields):
+    """a trivial coroutine body: logs nothing, fires nothing"""
+    for _ in range(nyields):
+        yield
+
+
 def run_body(ctx, comp, body, eid, hid, event):
+    """-> None, or the generator object the handler returns (action 'g')"""
     for a in body:
+        if a[0] == 'g':
+            if event is None:
+                continue
+            ctx.log.append([9, eid, hid])
+            return make_gen(a[1])      # `return <generator>`: the rest of the body never runs
         if a[0] == 'f':
             do_fire(ctx, comp, a[1], a[2])
         elif a[0] == 's':
@@ -90,7 +104,7 @@ def make_fn(ctx, hid, body):
         ctx.depth += 1
         ctx.log.append([1, eid, hid, ctx.depth])
         try:
-            run_body(ctx, self, body, eid, hid, event)
+            return run_body(ctx, self, body, eid, hid, event)
         finally:
             ctx.log.append([3, eid, hid])
             ctx.depth -= 1
@@ -169,7 +183,7 @@ class C02(Prop):
     quick_n = 260
     thorough_n = 9000
     rule = ('programs over <= 8 event names; handlers (0-3 per name, on two components) with priorities from '
-            '{-2,-1,-0.5,0,0.5,1,3, 1.0,-0.0,True,False,...}, bodies of <= 4 actions fire(name,priority)/event.stop()/flush(), '
+            '{-2,-1,-0.5,0,0.5,1,3, 1.0,-0.0,True,False,...}, bodies of <= 5 actions fire(name,priority)/event.stop()/flush()/return <generator>, '
             'nesting to depth 7; main program of fires and flushes (+ fires on a not yet registered component followed by '
             'register()); run through the real Manager with fire()/flush() only. non-trivial = some handler fires during a '
             'pass and at least two distinct priority values occur, or a handler calls flush()')
@@ -210,6 +224,15 @@ class C02(Prop):
                             body.append(['x'])
                         elif q < 0.92:
                             body.append(['s'])
+                    # a handler that is a plain function and returns a generator object (coroutine hand-off),
+                    # with and without a preceding stop(); sometimes in mid-body (the rest is dead code)
+                    q = rng.random()
+                    if q < 0.22 or (q < 0.45 and ['s'] in body):
+                        g = ['g', rng.randint(0, 1)]
+                        if body and rng.random() < 0.2:
+                            body.insert(rng.randint(0, len(body) - 1), g)
+                        else:
+                            body.append(g)
                     hs.append([hid, rng.choice(pr), rng.randint(0, 1), body])
                     hid += 1
                 handlers.append([name, hs])
@@ -259,6 +282,8 @@ class C02(Prop):
                     ctx.log.append([0, ctx.reg_id, REG_NAME, 0])
             else:
                 run_body(ctx, root, [a], None, None, None)
+        for _ in range(3):           # let the returned generators (tasks) run to their end
+            root.tick(0)
         final = [0, 0, len(root)]   # [model crashed, model stack left, queue length]
         st = self.stats
         st['kinds'][c['k']] = st['kinds'].get(c['k'], 0) + 1
@@ -268,6 +293,10 @@ class C02(Prop):
         md = max([e[3] for e in ctx.log if e[0] == 1] + [0])
         st['max_depth'][str(md)] = st['max_depth'].get(str(md), 0) + 1
         st['stops'] += sum(1 for e in ctx.log if e[0] == 2)
+        st['generator_returns'] = st.get('generator_returns', 0) + sum(1 for e in ctx.log if e[0] == 9)
+        stopped = {(e[1], e[2]) for e in ctx.log if e[0] == 2}
+        st['stop_then_generator_return'] = st.get('stop_then_generator_return', 0) + sum(
+            1 for e in ctx.log if e[0] == 9 and (e[1], e[2]) in stopped)
         if md > 1:
             st['nested_flush_cases'] += 1
         if len({e[3] for e in ctx.log if e[0] == 0}) > 1:
@@ -287,6 +316,8 @@ class C02(Prop):
                 out.append('X')
             elif a[0] == 's':
                 out.append('P')
+            elif a[0] == 'g':
+                out.append('G')
             elif a[0] == 'reg':
                 out.append('F %d 0' % REG_NAME)
         return '[%s]' % '; '.join(out)
@@ -399,6 +430,9 @@ class C02(Prop):
                 frames.pop()
             elif t == 2:
                 stopped_by.setdefault(e[1], e[2])
+            elif t == 9:
+                if frames[-1]['h'] != (e[1], e[2]):
+                    return 'generator returned by a handler that is not the running one'
         if len(frames) != 1:
             return 'run ended inside a handler'
         for eid in fired:
